@@ -16,7 +16,8 @@ RULE = ('targets of TT-rank rho=1..4 with continuous random cores, d=2..6, '
     'default), sample seeds (int and Generator), scales 1e-3..1e3; '
     'non-trivial = distinct (shape, rho, m, cap) with rho >= 2 or d >= 3')
 REQUIRED = {'wellformed': 200, 'ranks-cap': 200, 'recovery': 150,
-    'recovery-second-call': 150, 'recovery-long': 30}
+    'recovery-second-call': 150, 'recovery-long': 30,
+    'result-independent-of-buffer': 150}
 ASSUMPTIONS = ['instances whose sampled blocks have sigma_rho/sigma_1 < 1e-5 '
     '(from the dense target restricted to the sample set) are not judged',
     'recovery tolerance 1e-7 max|T| ("up to rounding" for blocks of '
@@ -137,8 +138,14 @@ def run_case(case, ctx):
         d, n = 2, [m, m + 1]
     Y, rt = gen.exact_rank_tt(rng, n, rho)
     scale = 10.0 ** rng.uniform(-3, 3)
+    tiny = False
     if rng.random() < 0.15:
         scale = 10.0 ** rng.uniform(100, 250)      # huge but representable
+    elif rng.random() < 0.2:
+        # tiny tensors (entries 1e-12..1e-30): the caller passes an accuracy
+        # to match, which every internal truncation has to honour
+        scale = 10.0 ** rng.uniform(-30, -12)
+        tiny = True
     Y[int(rng.integers(d))] *= scale
     T = np.asarray(ref.dense_ld(Y), dtype=float)
     sseed = int(rng.integers(1 << 30))
@@ -153,7 +160,15 @@ def run_case(case, ctx):
     y = T[tuple(I.T)]
     cap = [1e12, rho, rho + 1, m][int(rng.integers(4))]
     u = rng.random()
-    if cap == 1e12 and u < 0.5:
+    if tiny:
+        e_t = 1e-10 * float(np.abs(y).max())
+        if m > rho and rng.random() < 0.7:
+            cap = int(rng.integers(rho, m))          # rho <= cap < m
+        Z = teneva.svd_incomplete(I, y, idx, idx_many, e_t, cap) \
+            if rng.random() < 0.5 else \
+            teneva.svd_incomplete(I, y, idx, idx_many, e=e_t, r=cap)
+        ctx.event('tiny-scale-with-matching-accuracy')
+    elif cap == 1e12 and u < 0.5:
         Z = teneva.svd_incomplete(I, y, idx, idx_many)
     elif u < 0.75:
         Z = teneva.svd_incomplete(I, y, idx, idx_many, 1e-10, cap)
@@ -178,9 +193,24 @@ def run_case(case, ctx):
             ranks_target=rt, ranks_result=rz, conditioning=cond)
         ctx.margins['recovery'] = max(ctx.margins.get('recovery', 0.),
             err / (1e-7 * tmax))
+        # history: the sample buffer is refilled after the call (the next
+        # batch of measurements): the returned tensor must not follow it
+        if isinstance(y, np.ndarray) and y.flags.writeable:
+            y_keep = y.copy()
+            shared = [k for k, G in enumerate(Z) if np.shares_memory(G, y)]
+            y[...] = rng.normal(size=y.shape) * tmax
+            err_b = float(np.abs(np.asarray(ref.dense_ld(Z), dtype=float)
+                - T).max())
+            ctx.check('result-independent-of-buffer', not shared and
+                err_b <= 1e-7 * tmax, lambda: 'svd_incomplete: the returned '
+                f'cores {shared} share memory with the sample array; after '
+                f'the buffer was refilled max|Z - T| = {err_b:.3e} (before: '
+                f'{err:.3e})', cap=cap, m=m)
+            y[...] = y_keep
         # history: the same sample arrays handed in a second time (a caller
         # comparing caps, or re-fitting after the first result was consumed)
-        Z2 = teneva.svd_incomplete(I, y, idx, idx_many, 1e-10, cap)
+        Z2 = teneva.svd_incomplete(I, y, idx, idx_many, e_t if tiny
+            else 1e-10, cap)
         if ctx.check('wellformed', ref.wellformed(Z2, n) is None,
                 'second svd_incomplete call on the same arrays: malformed'):
             err2 = float(np.abs(np.asarray(ref.dense_ld(Z2), dtype=float)
